@@ -53,7 +53,15 @@ workload = S.workload
 def fixed_workloads():
     ws = D(("p", D(("o", D(("a", F("1")), ("b", F("2", True)), ("s", D(("c", F("1")))))), ("f.bin", F("1")))))
     t = [{"pkg": "p", "name": "t0", "key": "kA", "outputs": [["dir", "o"]]}, {"pkg": "p", "name": "t1", "key": "kB", "outputs": [["file", "f.bin"]]}]
-    return [(ws, t)]
+    # boundary sizes and fan-out: a 70 000 byte file (several io.Copy chunks; err-mid fails in the second half), files of 32768/32769/65537 bytes,
+    # 130 small files in one directory (upload goroutines / error channel capacity)
+    def pat(nb, salt):
+        return "".join(chr((i * 11 + salt) % 251) for i in range(nb))
+    big = D(*([("big", F(pat(70000, 1))), ("c32768", F(pat(32768, 2))), ("c32769", F(pat(32769, 3), True)), ("c65537", F(pat(65537, 4)))] +
+              [("f%03d" % k, F("v%d" % (k % 9), k % 2 == 0)) for k in range(130)]))
+    ws2 = D(("p", D(("wide", big), ("one.bin", F(pat(65536, 5))))))
+    t2 = [{"pkg": "p", "name": "t0", "key": "kW", "outputs": [["dir", "wide"]]}, {"pkg": "p", "name": "t1", "key": "kO", "outputs": [["file", "one.bin"]]}]
+    return [(ws, t), (ws2, t2)]
 
 
 def trace_oracle(ev, cas_keys, target_keys):
@@ -133,7 +141,9 @@ def run(ctx):
         stats["ops_per_reference_run"].append(nops)
         reqs = []
         # every single fault; the number of operations can grow after a fault (Exists fails -> Set is tried), so go a bit beyond
-        for i in range(1, nops + 3):
+        # (large workloads: a stride through the operations in the quick tier, every operation in the thorough tier)
+        stride = 1 if (nops <= 60 or not quick) else max(1, nops // 40)
+        for i in list(range(1, nops + 3, stride)) + ([nops, nops + 1] if stride > 1 else []):
             for kind in KINDS:
                 reqs.append((dict(base, plans=[{"plan": {str(i): kind}}]), "single:" + kind))
         # repeated faults: everything from the i-th operation on fails; two and three scattered faults
@@ -216,7 +226,7 @@ def make_workspace(root):
     with open(os.path.join(root, "pkg", "in.txt"), "w") as fh:
         fh.write("input\n")
     build = {"targets": [
-        {"name": "a", "command": "mkdir -p out/sub && cp in.txt out/a.txt && printf x > out/sub/b && printf x > out/sub/c && ln -s a.txt out/l && printf '#!/bin/sh\\n' > tool && chmod +x tool",
+        {"name": "a", "command": "rm -rf out tool && mkdir -p out/sub && cp in.txt out/a.txt && printf x > out/sub/b && printf x > out/sub/c && ln -s a.txt out/l && printf '#!/bin/sh\\n' > tool && chmod +x tool",
          "inputs": ["in.txt"], "outputs": ["dir::out", "tool"]},
         {"name": "b", "command": "cat out/a.txt out/sub/b > b.txt", "dependencies": [":a"], "outputs": ["b.txt"]},
     ]}
